@@ -1,6 +1,6 @@
 (* Properties/C06.v — Run() returns exactly at quiescence; the live-job count is exact over every history. *)
 From GN Require Import Common.Base Common.Int64 Model.Loop Model.LoopSrc Model.LoopTime Gen.LoopSkeleton
-  Proofs.LoopFrame Proofs.LoopCtl Proofs.LoopTimers Proofs.LoopInv Proofs.LoopProps Proofs.LoopTime.
+  Proofs.LoopFrame Proofs.LoopCtl Proofs.LoopTimers Proofs.LoopInv Proofs.LoopProps Proofs.LoopTime Cases.LoopCheck Proofs.LoopReplay.
 Open Scope Z_scope.
 
 (* in every reachable state jobCount is the number of jobs set and neither completed nor cleared, plus one exactly while
@@ -34,3 +34,9 @@ Print Assumptions C06_source_tie.
 Theorem C06_reach_nonvacuous : forall k, reach k init_after_setup.
 Proof. exact setup_reach. Qed.
 Print Assumptions C06_reach_nonvacuous.
+
+(* a controlled execution of the real loop whose log replays without difference ends in a reachable state of the model:
+   the theorems above apply to the executions the harness observes *)
+Theorem C06_checker_sound : forall k l s m, replay k init_after_setup mon0 l 0 = (s, m) -> m_diff m = None -> reach k s.
+Proof. exact replayed_state_reachable. Qed.
+Print Assumptions C06_checker_sound.
